@@ -2,7 +2,8 @@
    Only statements; proofs live in Proof/Exchange.v.  [client_run] is the client against
    ARBITRARY incoming messages m2 (ResPQ), m5 (Server_DH_Params), m7 (dh_gen answer). *)
 From Coq Require Import ZArith List Bool.
-From TD Require Import Lib.GoSem Lib.BigIntSem Gen.DhCheck Model.DhCheck Model.Exchange Proof.Exchange.
+From Coq Require Import Znumtheory.
+From TD Require Import Lib.GoSem Lib.RunLib Lib.BigIntSem Gen.DhCheck Model.DhCheck Model.ExchangeAnswer Model.Exchange Model.ExchangeDemo Proof.Exchange.
 Import ListNotations.
 Open Scope Z_scope.
 
@@ -85,11 +86,17 @@ Section C10.
   Theorem C10_not_ok_answers : forall ccf cr m2 m5 m7,
     (m5 = SdhFail cipher2 \/ m5 = SdhOther cipher2) \/ (m7 = GenRetry \/ m7 = GenFail \/ m7 = GenOther) ->
     is_ok (crun ccf cr m2 m5 m7) = false.
-  Proof.
-    intros ccf cr m2 m5 m7 [H|H].
-    - exact (move_sdh_fail pubkey cipher1 cipher2 cipher3 fp rsa_enc ans_dec cin_enc powmod prime factor nonce_hash1 key_id ccf cr m2 m5 m7 H).
-    - exact (move_gen_not_ok pubkey cipher1 cipher2 cipher3 fp rsa_enc ans_dec cin_enc powmod prime factor nonce_hash1 key_id ccf cr m2 m5 m7 H).
-  Qed.
+  Proof. exact (not_ok_answers pubkey cipher1 cipher2 cipher3 fp rsa_enc ans_dec cin_enc powmod prime factor nonce_hash1 key_id). Qed.
+
+  (* C10_unsafe_group_refused is relative to the primality ORACLE (ProbablyPrime(64)); with a sound
+     and complete oracle: anything but a 2048-bit safe prime with a table-conforming generator *)
+  Theorem C10_unsafe_group_refused_prime : forall ccf cr m2 n sn enc inner m7,
+    (forall x, prime x = true <-> Znumtheory.prime x) ->
+    ans_dec (cr_new_nonce cr) (rp_server_nonce m2) enc = Some inner -> 0 <= si_p inner ->
+    ~ (2 ^ 2047 <= si_p inner < 2 ^ 2048 /\ Znumtheory.prime (si_p inner) /\
+       Znumtheory.prime ((si_p inner - 1) / 2) /\ gp_table (si_g inner) (si_p inner)) ->
+    is_ok (crun ccf cr m2 (SdhOk cipher2 n sn enc) m7) = false.
+  Proof. exact (unsafe_group_rejected_prime pubkey cipher1 cipher2 cipher3 fp rsa_enc ans_dec cin_enc powmod prime factor nonce_hash1 key_id). Qed.
 End C10.
 Print Assumptions C10_accept_only_if.
 Print Assumptions C10_altered_respq_nonce.
@@ -101,3 +108,54 @@ Print Assumptions C10_unsafe_group_refused.
 Print Assumptions C10_altered_dh_gen_nonce.
 Print Assumptions C10_wrong_nonce_hash.
 Print Assumptions C10_not_ok_answers.
+Print Assumptions C10_unsafe_group_refused_prime.
+
+(* "The peer proved possession of the private key": with [ans_dec] instantiated by C11's model of
+   DecryptExchangeAnswer under the temporary keys of (new_nonce, server_nonce) + TL decoding, a
+   completed exchange implies C11's guarantee for the delivered ciphertext -- non-empty data whose
+   SHA-1 is the embedded prefix of the AES-IGE plaintext under keys that only someone who learned
+   the client's new_nonce (i.e. decrypted RSA_PAD: C14) can derive.  The chain C10 -> C11 is a Coq
+   fact; that RSA_PAD hides new_nonce remains the cryptographic assumption. *)
+Theorem C10_accepted_answer_authenticated :
+  forall (pubkey cipher1 cipher3 : Type) (fp : pubkey -> Z) (rsa_enc : pubkey -> pq_inner -> cipher1)
+         (cin_enc : nonce -> nonce -> cdh_inner -> cipher3) (powmod : Z -> Z -> Z -> Z) (prime : Z -> bool)
+         (factor : Z -> option (Z * Z)) (nonce_hash1 : nonce -> list Z -> list Z) (key_id : list Z -> list Z)
+         (sha1 : list Z -> list Z) (ige_dec : list Z -> list Z -> list Z -> list Z)
+         (tmp_key tmp_iv : nonce -> nonce -> list Z) (decode : list Z -> option sdh_inner)
+         ccf cr m2 m5 m7 r,
+    client_run pubkey cipher1 (list Z) cipher3 fp rsa_enc (ans_dec_c11 sha1 ige_dec tmp_key tmp_iv decode)
+               cin_enc powmod prime factor nonce_hash1 key_id ccf cr m2 m5 m7 = Ok r ->
+    exists n sn enc d i inner,
+      m5 = SdhOk (list Z) n sn enc /\
+      let nn := cr_new_nonce cr in
+      let sn2 := rp_server_nonce m2 in
+      let plain := ige_dec (tmp_key nn sn2) (tmp_iv nn sn2) enc in
+      d <> [] /\ (i < 16)%nat /\ d = cand plain i /\ sha1 d = firstn sha1_size plain /\
+      decode d = Some inner /\ si_nonce inner = cr_nonce cr /\ si_server_nonce inner = sn2.
+Proof. exact accepted_answer_authenticated. Qed.
+Print Assumptions C10_accepted_answer_authenticated.
+
+(* ---------- non-vacuity (instance of Model/ExchangeDemo.v) ---------- *)
+(* the client DOES accept the honest server's messages: C10_accept_only_if is not vacuous *)
+Example C10_accepting_instance : is_ok (d_client d_m2 d_m5 d_m7) = true.
+Proof. vm_compute. reflexivity. Qed.
+(* each move's premise is reachable with every earlier step passed, and the move is refused there *)
+Example C10_move_respq_nonce :
+  d_client {| rp_nonce := repeat 9 16; rp_server_nonce := rp_server_nonce d_m2; rp_pq := rp_pq d_m2; rp_fps := rp_fps d_m2 |} d_m5 d_m7 = Err ENonce2.
+Proof. vm_compute. reflexivity. Qed.
+Example C10_move_own_key :
+  d_client {| rp_nonce := rp_nonce d_m2; rp_server_nonce := rp_server_nonce d_m2; rp_pq := rp_pq d_m2; rp_fps := [99] |} d_m5 d_m7 = Err EFingerprint.
+Proof. vm_compute. reflexivity. Qed.
+Example C10_move_ga_out_of_range :
+  d_client d_m2 (SdhOk sdh_inner d_nonce d_server_nonce
+                       {| si_nonce := d_nonce; si_server_nonce := d_server_nonce; si_g := server_g; si_p := d_p; si_ga := 1; si_time := 0 |}) d_m7
+  = Err (EDHParams 42).
+Proof. vm_compute. reflexivity. Qed.
+Example C10_move_small_prime :
+  d_client d_m2 (SdhOk sdh_inner d_nonce d_server_nonce
+                       {| si_nonce := d_nonce; si_server_nonce := d_server_nonce; si_g := 2; si_p := 23; si_ga := 5; si_time := 0 |}) d_m7
+  = Err (ECheckDH 31).
+Proof. vm_compute. reflexivity. Qed.
+Example C10_move_wrong_hash :
+  d_client d_m2 d_m5 (GenOk d_nonce d_server_nonce (repeat 0 16)) = Err EHash.
+Proof. vm_compute. reflexivity. Qed.
